@@ -2,7 +2,7 @@ SPECIFICATION Spec
 CONSTANTS
   T = 3
   H = 2
-  Spots <- SpotsA
+  Spots <- SpotsB
   Units <- UnitsA
   CostVecs <- Cost2s
   Payoffs <- PayB
